@@ -235,7 +235,7 @@ def alpha_row(row: dict) -> dict:
         return r
     if RE_OSM.search(qtype):
         r["frag"] = False
-    if qtype in ("xml-external", "csv-external", "include") or qtype.startswith("cascading"):
+    if qtype in ("include",) or qtype.startswith("cascading"):
         r["frag"] = False
     if qtype == "photo":
         p = parse_params(str(row.get("parameters", "") or ""))
